@@ -286,27 +286,46 @@ def applyMapping (mapping : List (String × String)) : List String → List Stri
     | some v => v :: rest
     | none => n :: rest
 
+/-- one operand of the `+` chain that `AbstractNameDefinition.get_qualified_names` returns when
+`include_module_names` is set: the local `module_names` (`get_root_context().string_names`) or the
+local `qualified_names` (`self._get_qualified_names()`).  The translator admits no other operand. -/
+def joinOperand (m q : List String) (x : String) : List String :=
+  if x = "module_names" then m else if x = "qualified_names" then q else []
+
+/-- the final `return` of `get_qualified_names(include_module_names=True)`, evaluated: `join` is the
+list of operands of its `+` chain as the translator reads them from jedi/inference/names.py
+(`Gen.C18.moduleJoin`; `return module_names + qualified_names` = `["module_names",
+"qualified_names"]`).  The function has no other way to combine the two tuples: the translator
+refuses (TieBroken) any further statement, in particular a conditional that drops or rewrites
+components. -/
+def joinNames (join : List String) (m q : List String) : List String :=
+  join.flatMap (joinOperand m q)
+
 /-- `Name.full_name` as a list of components (joined with '.'); `none` = Python `None`.
 Definition names from `get_names` are `TreeNameDefinition`s: qualified names of
-`create_context(name)` plus the name itself; parameters have none. -/
-def fullNameOfLeaf (mapping : List (String × String)) (p : NProg) (i : Nat) : Option (List String) :=
+`create_context(name)` plus the name itself (`AbstractTreeName._get_qualified_names`), then the
+module names (`get_qualified_names`, operand order `join`); parameters have none. -/
+def fullNameOfLeaf (mapping : List (String × String)) (join : List String) (p : NProg) (i : Nat) :
+    Option (List String) :=
   match p.leaves[i]? with
   | none => none
   | some l =>
     match l.role with
     | .defName _ | .bind =>
       match ctxQual p p.fuel (createContext p l.start l.pscope l.isParamName), p.modNames with
-      | some q, some m => some (applyMapping mapping (m ++ q ++ [l.name]))
+      | some q, some m => some (applyMapping mapping (joinNames join m (q ++ [l.name])))
       | _, _ => none
     | _ => none
 
-/-- `full_name` of the name of the context of scope `c` (what `get_context` / `parent()` return) -/
-def fullNameOfScope (mapping : List (String × String)) (p : NProg) (c : Nat) : Option (List String) :=
+/-- `full_name` of the name of the context of scope `c` (what `get_context` / `parent()` /
+`infer()` return: a `ValueName`, whose `_get_qualified_names` is the value's) -/
+def fullNameOfScope (mapping : List (String × String)) (join : List String) (p : NProg) (c : Nat) :
+    Option (List String) :=
   match p.kind c with
   | .lambda | .comp => none          -- LambdaName: no qualified names
   | _ =>
     match ctxQual p p.fuel c, p.modNames with
-    | some q, some m => some (applyMapping mapping (m ++ q))
+    | some q, some m => some (applyMapping mapping (joinNames join m q))
     | _, _ => none
 
 /-! ## Python side -/
